@@ -161,6 +161,7 @@ type rows struct {
 	cols []string
 	data [][]driver.Value
 	pos  int
+	buf  []byte // the read buffer []byte values are handed over in (reused for every row)
 }
 
 func (r *rows) Columns() []string { return r.cols }
@@ -178,6 +179,24 @@ func (r *rows) Next(dest []driver.Value) error {
 		return io.EOF
 	}
 	copy(dest, r.data[r.pos])
+	// like a driver reading from the wire, []byte values are handed over in ONE buffer that is
+	// overwritten by the next row (database/sql: such memory is only valid until the next call)
+	if r.buf == nil {
+		r.buf = make([]byte, 0, 1<<16)
+	}
+	r.buf = r.buf[:0]
+	for _, v := range dest {
+		if b, ok := v.([]byte); ok {
+			r.buf = append(r.buf, b...)
+		}
+	}
+	off := 0
+	for i, v := range dest {
+		if b, ok := v.([]byte); ok {
+			dest[i] = r.buf[off : off+len(b) : off+len(b)]
+			off += len(b)
+		}
+	}
 	r.pos++
 	return nil
 }
